@@ -466,6 +466,9 @@ def visit_spec(h: Heap):
     VKp = Function(f"VKp<{k0}>", Val, Ref, I, I, I, B)
     VPost = Function(f"VPost<{k0}>", Val, Ref, I, I, I, B)
     VKq = Function(f"VKq<{k0}>", Val, Ref, I, I, I, B)
+    # children segments *with a status*: all children visited (0), or child k ended the visit with st
+    VKpS = Function(f"VKpS<{k0}>", Val, Ref, I, I, I, B)
+    VKqS = Function(f"VKqS<{k0}>", Val, Ref, I, I, I, B)
     cb, n = Const(f"cb!v{k0}", Val), Const(f"n!v{k0}", Ref)
     i, j, m, k, st, c, i1 = (Const(f"{x}!v{k0}", I) for x in ("i", "j", "m", "k", "st", "c", "i1"))
     bad = lambda s: Or(s == EV_STOP, s == EV_ERR)  # noqa: E731
@@ -486,6 +489,12 @@ def visit_spec(h: Heap):
         ForAll([cb, n, i, j], Implies(And(h.clen(n) == 0, TN(cb, i) == n, TK(cb, i) == EV_CONT, j == i + 1), VPre(cb, n, i, j, ST_DONE)), patterns=[VPre(cb, n, i, j, ST_DONE)]),
         ForAll([cb, n, i, j], Implies(And(h.clen(n) == 0, TN(cb, i) == n, Or(TK(cb, i) == EV_CONT, TK(cb, i) == EV_SKIP), j == i + 1), VPost(cb, n, i, j, ST_DONE)), patterns=[VPost(cb, n, i, j, ST_DONE)]),
         ForAll([cb, n, i, j, st], Implies(And(h.clen(n) == 0, TN(cb, i) == n, TK(cb, i) == st, bad(st), j == i + 1), VPost(cb, n, i, j, st)), patterns=[VPost(cb, n, i, j, st)]),
+        ForAll([cb, n, i, j, c], Implies(And(VKp(cb, n, c, i, j), c == h.clen(n)), VKpS(cb, n, i, j, ST_DONE)), patterns=[MP(VKpS(cb, n, i, j, ST_DONE), VKp(cb, n, c, i, j))]),
+        ForAll([cb, n, k, i, m, j, st], Implies(And(VKp(cb, n, k, i, m), 0 <= k, k < h.clen(n), VPre(cb, h.child(n, k), m, j, st), bad(st)), VKpS(cb, n, i, j, st)),
+               patterns=[MP(VKpS(cb, n, i, j, st), VKp(cb, n, k, i, m), VPre(cb, h.child(n, k), m, j, st))]),
+        ForAll([cb, n, i, j, c], Implies(And(VKq(cb, n, c, i, j), c == h.clen(n)), VKqS(cb, n, i, j, ST_DONE)), patterns=[MP(VKqS(cb, n, i, j, ST_DONE), VKq(cb, n, c, i, j))]),
+        ForAll([cb, n, k, i, m, j, st], Implies(And(VKq(cb, n, k, i, m), 0 <= k, k < h.clen(n), VPost(cb, h.child(n, k), m, j, st), bad(st)), VKqS(cb, n, i, j, st)),
+               patterns=[MP(VKqS(cb, n, i, j, st), VKq(cb, n, k, i, m), VPost(cb, h.child(n, k), m, j, st))]),
         # ---- post-order
         ForAll([cb, n, i], VKq(cb, n, 0, i, i), patterns=[VKq(cb, n, 0, i, i)]),
         ForAll([cb, n, k, i, m, j], Implies(And(VKq(cb, n, k, i, m), 0 <= k, k < h.clen(n), VPost(cb, h.child(n, k), m, j, ST_DONE)), VKq(cb, n, k + 1, i, j)),
@@ -497,7 +506,7 @@ def visit_spec(h: Heap):
         ForAll([cb, n, k, i, m, j, st], Implies(And(VKq(cb, n, k, i, m), 0 <= k, k < h.clen(n), VPost(cb, h.child(n, k), m, j, st), bad(st)), VPost(cb, n, i, j, st)),
                patterns=[MP(VPost(cb, n, i, j, st), VKq(cb, n, k, i, m), VPost(cb, h.child(n, k), m, j, st))]),
     ])
-    _VISIT[key] = (VPre, VKp, VPost, VKq)
+    _VISIT[key] = (VPre, VKp, VPost, VKq, VKpS, VKqS)
     return _VISIT[key]
 
 
